@@ -260,6 +260,17 @@ def c10_programs(rng, n):
             # the initiator first receives `pre` items the normal way, then switches to a callback
             iops = [("remote_exec", "c", 1)] + [("receive", "c")] * pre + [("setcallback", "c", True), ("receive", "c"), ("waitclose", "c")]
             out.append(prog([("u1", iops)], {1: body}))
+    # an endmarker that is None (RSync, MultiChannel queues): delivered like any other, for every kind of ending
+    for body in ([("send", "channel", 201), ("send", "channel", 202)], [("send", "channel", 201), ("raise",)], [("raise",)]):
+        out.append(prog([("u1", [("remote_exec", "c", 1), ("setcallback", "c", "none"), ("waitclose", "c"), ("sleep", 1)])], {1: body}))
+    # the failing conversation was first consumed by receive() / iteration up to the RemoteError, only then a callback is set: it
+    # still gets the (one) endmarker
+    out.append(prog([("u1", [("remote_exec", "c", 1), ("receive", "c"), ("receive", "c"), ("setcallback", "c", True), ("sleep", 1)])],
+                    {1: [("send", "channel", 201), ("raise",)]}))
+    out.append(prog([("u1", [("remote_exec", "c", 1), ("iterate", "c"), ("setcallback", "c", True), ("sleep", 1)])],
+                    {1: [("send", "channel", 201), ("send", "channel", 202), ("raise",)]}))
+    out.append(prog([("u1", [("remote_exec", "c", 1), ("receive", "c"), ("receive", "c"), ("receive", "c"), ("setcallback", "c", "none"), ("sleep", 1)])],
+                    {1: [("send", "channel", 201), ("raise",)]}))
     # callback on the worker side, initiator sends then closes
     out.append(prog([("u1", [("remote_exec", "c", 1), ("newchannel", "d"), ("sendchan", "c", "d"), ("send", "d", 101), ("send", "d", 102), ("send", "d", 103),
                              ("close", "d"), ("waitclose", "c")])],
